@@ -58,4 +58,14 @@ NotEarlyOK(dueLo, r, closing) == closing \/ (dueLo # NONE /\ r >= dueLo)
 ShapeOK(kind, shape)  == shape = (IF kind = "scalar" THEN "scalar" ELSE "list")
 ValuesOK(val, f, ents) == /\ Len(val) = Len(ents)
                           /\ \A i \in 1 .. Len(ents) : val[i] = f[ents[i]]
+\* ... where an entity which was notified contradicting final states (a cancel
+\* raced the execution) may hold any final state
+ValuesAltOK(nn, val, f, racedset, ents) ==
+  /\ Len(val) = Len(ents)
+  /\ \A i \in 1 .. Len(ents) : val[i] = f[ents[i]] \/ (ents[i] \in racedset /\ Final(nn, val[i]))
+\* the same with the exact alternatives: alt[e] is the sequence of the further
+\* final states which were notified for e after its first one
+ValuesAltSeqOK(val, f, alt, ents) ==
+  /\ Len(val) = Len(ents)
+  /\ \A i \in 1 .. Len(ents) : val[i] = f[ents[i]] \/ val[i] \in SeqSet(alt[ents[i]])
 =============================================================================
